@@ -37,6 +37,10 @@ correspondence:  (a) exhaustive get/set sequences: per-step observations (get
                  (LfuAuxModel.h_sorted_keys / h_avg_freq; dict order = list order).
                  (j) arbitrary hashable keys (1 / 1.0 / True, str, bytes, tuples, frozensets,
                  None, big ints, colliding hashes) against the model on key equality classes.
+source tie:      (round 5) harness/translate/lfucache.py regenerates a Gallina transcription of lfucache.py
+                 (CacheNode / FreqNode / LFUCache methods, plain-value form) from the CURRENT source on every
+                 run; coq/srctie/LfuGenEquiv.v proves it equal to LfuHeapModel.v for all arguments and
+                 transfers the heap-level theorems (SOURCE_TIES, on_source_tie_break, tie_differencing below).
 direct oracle:   an independent reference LFU (victim = min (uses, time of
                  reaching that count)), structural consistency of the linked
                  lists, heap-access monitor (EVERY read/write of a CacheNode / FreqNode field,
@@ -1090,7 +1094,7 @@ class ParkKey:
         if self._first:
             self._first = False
             self.inside.set()
-            self.release.wait(10)
+            self.release.wait(300)
         return hash(("park", self.key_id))
 
     def __eq__(self, other):
@@ -1128,14 +1132,14 @@ def forced_overlap_case(prefix, parked_op, other_op, wait=0.15):
     errs, o1, o2 = [], [], []
     t1 = threading.Thread(target=_apply, args=(c, parked_op, pk, errs, o1))
     t1.start()
-    if not pk.inside.wait(10):
+    if not pk.inside.wait(120):
         errs.append("thread 1 never reached the key table")
     t2 = threading.Thread(target=_apply, args=(c, other_op, other_op[1], errs, o2))
     t2.start()
     t2.join(wait)                 # blocked on the lock (or already back)
     pk.release.set()
-    t1.join(10)
-    t2.join(10)
+    t1.join(120)
+    t2.join(120)
     if t1.is_alive() or t2.is_alive():
         errs.append("a thread is still blocked after the release")
     merged = list(prefix) + [parked_op, other_op]
@@ -1193,7 +1197,7 @@ class _LogLock(_RecLock):
         w = self.who.get(me)
         if w is not None and w[0] == self.park_idx and not self.at_acquire.is_set():
             self.at_acquire.set()
-            self.go.wait(60)
+            self.go.wait(300)
         r = _RecLock.acquire(self, *a, **k)
         if r:
             self.log.append(w)
@@ -1241,15 +1245,15 @@ def forced_schedule_case(name, cap, prefix, ops1, ops2, mode, wait=0.15):
                 res["errors"].append("thread %d: %s: %s" % (idx, type(e).__name__, e))
         t1 = threading.Thread(target=work, args=(1, ops1, pk))
         t1.start()
-        parked = (pk.inside if pk else lk.at_acquire).wait(60)
+        parked = (pk.inside if pk else lk.at_acquire).wait(300)
         if not parked:
             res["errors"].append("thread 1 never reached its parking point")
         t2 = threading.Thread(target=work, args=(2, ops2, None))
         t2.start()
         t2.join(wait)                    # done, or blocked on the lock
         (pk.release if pk else lk.go).set()
-        t1.join(60)
-        t2.join(60)
+        t1.join(300)
+        t2.join(300)
         if t1.is_alive() or t2.is_alive():
             res["errors"].append("a thread is still blocked after the release")
         res["log"] = [[w[0], list(w[1])] for w in lk.log if w is not None]
@@ -1408,15 +1412,17 @@ def forced_readers(ctx):
                 reads_done.set()
         t1 = threading.Thread(target=work, args=(1, ops1, pk))
         t1.start()
-        if not pk.inside.wait(60):
+        if not pk.inside.wait(300):
             errs.append("thread 1 never reached its parking point")
         t2 = threading.Thread(target=work, args=(2, ops2, None))
         t2.start()
-        reads_done.wait(60)
+        reads_done.wait(300)
         t2.join(0.05)
         pk.release.set()
-        t1.join(60)
-        t2.join(60)
+        t1.join(300)
+        t2.join(300)
+        if t1.is_alive() or t2.is_alive():
+            errs.append("a thread is still blocked after the release")
         log = [[w[0], (["get", w[1][1]] if w[1][0] == "get" else ["set", w[1][1], ("Some", w[1][2]) if w[1][2] is not None else None, w[1][3]])]
                for w in lk.log if w is not None]
         ctx.seen(("forced_readers", name), nontrivial=True)
@@ -1435,12 +1441,19 @@ def forced_readers(ctx):
             ctx.fail(dict(case, lookups=lead, expected=exp_lookups),
                      "`key in cache` during another thread's critical section (parked before its first change) returned %r, the state before it gives %r" % (lead, exp_lookups))
         if graph is not None:
+            # the model schedule follows the OBSERVED lock-acquisition order CALL BY CALL (kind-1 blocks: one locking call of
+            # thread t, the lock-free lookups before it in program order on the way), so that the comparison does not depend on
+            # which thread wins the lock after the release (raw-step blocks ran ALL remaining calls of a thread at once and
+            # mismatched whenever thread 1's later call lost the race against thread 2's calls: a false alarm under load).
+            # The lock-free lookups compared are timing-independent by construction: the leading ones run while thread 1 is
+            # parked (reads_done), the later ones follow a set of the same thread that fixes their answer.
             order = [t for t, _ in log[len(prefix):]]
-            blocks = [(0, 3000), (1, 2), (2, 3000)] + [(t, 3000) for t in order] + [(1, 3000), (2, 3000), (1, 3000), (2, 3000)]
-            if order and order[0] != 1:
-                blocks = [(0, 3000)] + [(t, 3000) for t in order] + [(1, 3000), (2, 3000)]
-            expr = "gconc_sx %d [%s] [%s]" % (cap, "; ".join(coq_calls(pr) for pr in (prefix, ops1, ops2)),
-                                              "; ".join("(%d, %d)%%nat" % b for b in blocks))
+            blocks = [(0, 0, 3000)]
+            if order and order[0] == 1:
+                blocks += [(1, 0, 2), (2, 0, 3000)]                 # thread 1: call + acquire (parked); thread 2: its lookups, then waits
+            blocks += [(t, 1, 1) for t in order] + [(1, 0, 3000), (2, 0, 3000), (1, 0, 3000), (2, 0, 3000)]
+            expr = "gconc3_sx %d [%s] [%s]" % (cap, "; ".join(coq_calls(pr) for pr in (prefix, ops1, ops2)),
+                                               "; ".join("(%d, %d, %d)%%nat" % b for b in blocks))
             cases.append((expr, [True, False, log, outs, obs, graph], dict(case, what="real threads vs interleaving semantics with lock-free lookups")))
     ctx.coq_cases("lfu_forced_readers", "From DD Require Import Lfu.LfuModel Lfu.LfuRtModel Lfu.LfuConcModel Lfu.LfuConcGModel Lfu.LfuConcGShow.\nLocal Open Scope Z_scope.",
                   cases, shard=50, label="threads_lock_free_lookups_vs_interleaving_semantics")
@@ -1472,7 +1485,7 @@ def linearizable_threads(ctx, rounds, nthreads=8, keys_per_thread=3, nops=250):
             def work(seq):
                 last = {}
                 try:
-                    start.wait(10)
+                    start.wait(300)
                     for i, (kind, k, v) in enumerate(seq):
                         if kind == "get":
                             got = c.get(k)
@@ -1490,7 +1503,7 @@ def linearizable_threads(ctx, rounds, nthreads=8, keys_per_thread=3, nops=250):
             for th in ts:
                 th.start()
             for th in ts:
-                th.join(60)
+                th.join(600)
             merged = [op for s in seqs for op in s]
             view, exp = key_view(c), expected_view(cap, merged)
             ctx.seen(("linear", cap, tuple(map(tuple, seqs))), nontrivial=True)
